@@ -51,6 +51,30 @@ Theorem C01_decode_conforms : forall m,
 Proof. exact decode_conforms. Qed.
 Print Assumptions C01_decode_conforms.
 
+(* --- attributes decode() takes from the wire that [abs] does not look at (see CorrPdu.wire_attrs_ok):
+       WriteMultipleCoilsRequest.byte_count (read by execute()), the byte_count of read-bits responses,
+       number_of_objects of the device-identification response: each holds the wire's field ----------- *)
+Theorem C01_decode_wire_attrs : forall m o, spec_wf m = true -> conforming_decode m = true ->
+  py_decode (msg_is_request m) (spec_pdu m) = Ok o -> wire_attrs_ok m o = true.
+Proof. exact decode_wire_attrs. Qed.
+Print Assumptions C01_decode_wire_attrs.
+
+(* the write requests decode to exactly these instances: every attribute execute() reads is determined *)
+Theorem C01_decode_fc15_byte_count : forall a cs, spec_wf (MWriteCoilsReq a cs) = true ->
+  py_decode true (spec_pdu (MWriteCoilsReq a cs)) = Ok (OWriteCoilsReq a cs (bit_byte_count (len cs))).
+Proof. exact dec_fc15_explicit. Qed.
+Print Assumptions C01_decode_fc15_byte_count.
+
+Theorem C01_decode_fc16_counts : forall a rs, spec_wf (MWriteRegsReq a rs) = true ->
+  py_decode true (spec_pdu (MWriteRegsReq a rs)) = Ok (OWriteRegsReq a rs (len rs) (2 * len rs)).
+Proof. exact dec_fc16_explicit. Qed.
+Print Assumptions C01_decode_fc16_counts.
+
+Theorem C01_decode_fc23_counts : forall ra rq wa ws, spec_wf (MReadWriteRegsReq ra rq wa ws) = true ->
+  py_decode true (spec_pdu (MReadWriteRegsReq ra rq wa ws)) = Ok (ORWReq ra rq wa ws (len ws) (2 * len ws)).
+Proof. exact dec_fc23_explicit. Qed.
+Print Assumptions C01_decode_fc23_counts.
+
 (* --- dispatch: the factory tables pick the class the specification names, for EVERY code ---- *)
 Theorem C01_dispatch_server : forall fc, lookup_fc server_function_table fc = spec_request_class fc.
 Proof. exact dispatch_server. Qed.
